@@ -112,7 +112,7 @@ def stage2_one(args):
     idx, mut = args
     wid = 100 + (os.getpid() % 64)
     wt = worktree(wid)
-    subprocess.run(["git", "-C", wt, "checkout", "-q", "--detach", subprocess.run(["git", "-C", "/repo", "rev-parse", "HEAD"], capture_output=True, text=True).stdout.strip()])
+    subprocess.run(["git", "-C", wt, "checkout", "-q", "-f", "--detach", subprocess.run(["git", "-C", "/repo", "rev-parse", "HEAD"], capture_output=True, text=True).stdout.strip()])
     if not apply(wt, mut):
         return dict(id=idx, mut=mut, caught=[], inconclusive=[], gone=True)
     scratch = f"/tmp/ms_{wid}"
@@ -193,6 +193,29 @@ def main():
                     f, i, op, new = r["mut"]
                     orig = base_lines(f)[i]
                     print(f"  MISSED {f}:{i+1} {op}: {orig.strip()[:110]}  ->  {new.strip()[:110]}  inconclusive={r['inconclusive']}")
+    elif cmd == "eval":
+        # mutate.py eval <id> <Cxx> [Cyy ...]: one mutant against full-volume quick checks (all variants)
+        idx = int(sys.argv[2])
+        mut = next(tuple(json.loads(l)["mut"]) for l in open(os.path.join(OUT, "stage1.jsonl")) if json.loads(l)["id"] == idx)
+        wt = worktree(900 + idx % 50)
+        subprocess.run(["git", "-C", wt, "checkout", "-q", "-f", "--detach", subprocess.run(["git", "-C", "/repo", "rev-parse", "HEAD"], capture_output=True, text=True).stdout.strip()])
+        if not apply(wt, mut):
+            print("mutated line no longer exists")
+            return
+        print(subprocess.run(["git", "-C", wt, "diff", "--stat"], capture_output=True, text=True).stdout.strip())
+        scratch = f"/tmp/ms_eval_{idx}"
+        env = dict(os.environ, VERIF_REPO=wt, VERIF_SCRATCH=scratch)
+        try:
+            for c in sys.argv[3:]:
+                p = subprocess.run(["./check", c, "quick"], cwd=VERIF, env=env, capture_output=True, text=True)
+                lines = p.stdout.strip().split("\n")
+                first = next((l for l in lines if l.startswith("  ")), "")
+                print(c, "rc", p.returncode, lines[-1][:120], "|", first.strip()[:200])
+        finally:
+            restore(wt, mut)
+            shutil.rmtree(scratch, ignore_errors=True)
+            shutil.rmtree(os.path.join(VERIF, "build", "alt_" + __import__("hashlib").sha1(os.path.realpath(wt).encode()).hexdigest()[:8]), ignore_errors=True)
+            subprocess.run(["git", "-C", "/repo", "worktree", "remove", "--force", wt])
     elif cmd == "cleanup":
         for d in os.listdir("/tmp"):
             if d.startswith("mw_"):
